@@ -283,4 +283,41 @@ theorem roundtrip_msb {names : List Name} (hn : names.Nodup) (h8 : names.length 
     have : 7 - (7 - i) = i := by omega
     simp only [Bool.false_eq_true, if_false, this]; exact hb
 
+/-! ### `str.strip` -/
+
+
+theorem lstrip_ws_append (w y : Name) (hw : ∀ c ∈ w, isPyWs c = true) : lstrip (w ++ y) = lstrip y := by
+  induction w with
+  | nil => rfl
+  | cons c t ih =>
+    have hc := hw c (by simp)
+    simp only [List.cons_append, lstrip, hc, if_true]
+    exact ih (fun c hc => hw c (by simp [hc]))
+
+theorem lstrip_all_ws (w : Name) (hw : ∀ c ∈ w, isPyWs c = true) : lstrip w = [] := by
+  have := lstrip_ws_append w [] hw
+  simpa [lstrip] using this
+
+theorem lstrip_of_head (x : Name) (hx : ∀ c, x.head? = some c → isPyWs c = false) : lstrip x = x := by
+  cases x with
+  | nil => rfl
+  | cons c t => simp [lstrip, hx c rfl]
+
+/-- stripping removes exactly the whitespace padding around a name that does not itself start or end
+    with whitespace -/
+theorem strip_pad (w1 x w2 : Name) (h1 : ∀ c ∈ w1, isPyWs c = true) (h2 : ∀ c ∈ w2, isPyWs c = true)
+    (hh : ∀ c, x.head? = some c → isPyWs c = false) (hl : ∀ c, x.getLast? = some c → isPyWs c = false) :
+    strip (w1 ++ x ++ w2) = x := by
+  unfold strip
+  rw [List.append_assoc, lstrip_ws_append _ _ h1]
+  cases x with
+  | nil =>
+    simp only [List.nil_append, lstrip_all_ws w2 h2]; rfl
+  | cons c t =>
+    have : lstrip (c :: t ++ w2) = c :: t ++ w2 := by
+      apply lstrip_of_head; intro d hd; apply hh; simpa using hd
+    rw [this, List.reverse_append, lstrip_ws_append _ _ (fun d hd => h2 d (by simpa using hd))]
+    rw [lstrip_of_head _ (by intro d hd; apply hl; rw [List.head?_reverse] at hd; exact hd)]
+    exact List.reverse_reverse _
+
 end Flags
